@@ -33,8 +33,11 @@ ASSUMPTIONS = [
     'dict-valued leaf updates returned through two ports of one process '
     'are outside the alphabet (the engine merges update trees key-wise)',
 ]
-BOUNDS = {'quick': {'batch': 3, 'pairs': 'first 3 updates'},
-          'thorough': {'batch': 3, 'pairs': 'all updates'}}
+BOUNDS = {'quick': {'batch': 3, 'pairs': 'first 3 updates',
+                    'triples': 'first 2 updates'},
+          'thorough': {'batch': 4, 'pairs': 'all updates',
+                       'triples': 'all updates',
+                       'quadruples': 'first 2 updates'}}
 
 
 def user_updater(current, update):
@@ -422,7 +425,9 @@ def jobs(ctx):
                             or not ctx.quick) else umks[:3]
             batches += list(itertools.product(wide, repeat=2))
             batches += list(itertools.product(
-                umks[:2] if ctx.quick else umks[:3], repeat=3))
+                umks[:2] if ctx.quick else umks, repeat=3))
+            if not ctx.quick and updater not in ('merge', 'dict_value'):
+                batches += list(itertools.product(umks[:2], repeat=4))
             for bi, batch in enumerate(batches):
                 if updater == 'dict_value' and len(batch) > 1:
                     # keep only batches that are legal in every order
@@ -433,7 +438,8 @@ def jobs(ctx):
                     except (KeyError, AttributeError, TypeError):
                         continue
                 # every shape for single updates; two shapes for batches
-                shapes = SHAPES if len(batch) == 1 else SHAPES[1:3]
+                shapes = SHAPES if len(batch) == 1 or (
+                    not ctx.quick and len(batch) == 2) else SHAPES[1:3]
                 for (path, n_sib) in shapes:
                     for route in ('store', 'engine'):
                         modes = ['seq']
@@ -463,8 +469,11 @@ def jobs(ctx):
         for updater in ('default', 'accumulate', 'set',
                         'nonnegative_accumulate'):
             batches = [(L(u),) for u in upds] + [
-                (L(a), L(b)) for a, b in itertools.product(upds[:3],
-                                                           repeat=2)]
+                (L(a), L(b)) for a, b in itertools.product(
+                    upds[:3] if ctx.quick else upds, repeat=2)]
+            if not ctx.quick:
+                batches += [(L(a), L(b), L(c)) for a, b, c in
+                            itertools.product(upds[:3], repeat=3)]
             for batch in batches:
                 for (path, n_sib) in SHAPES[1:3]:
                     for route in ('store', 'engine'):
